@@ -52,3 +52,29 @@ def model_strings(model, exprs):
             pass
         stack.extend(e.children())
     return out
+
+
+def all_model_strings(model):
+    """every string literal occurring in the interpretation of any declaration of the model (array/function graphs included)"""
+    out = set()
+    def walk(e, seen):
+        stack = [e]
+        while stack:
+            t = stack.pop()
+            if t.get_id() in seen: continue
+            seen.add(t.get_id())
+            if z3.is_string_value(t): out.add(t.as_string()); continue
+            if z3.is_quantifier(t): stack.append(t.body()); continue
+            stack.extend(t.children())
+    seen = set()
+    for d in model.decls():
+        itp = model[d]
+        if isinstance(itp, z3.FuncInterp):
+            for k in range(itp.num_entries()):
+                en = itp.entry(k)
+                for a in range(en.num_args()): walk(en.arg_value(a), seen)
+                walk(en.value(), seen)
+            walk(itp.else_value(), seen)
+        elif itp is not None and isinstance(itp, z3.ExprRef):
+            walk(itp, seen)
+    return out
